@@ -39,7 +39,7 @@ def names():
 
 def datapoints():
   dps = []
-  vals = [0.0, 1.0, -1.5, 1e-7, 1e300, float('inf'), float('-inf'), 3, -7, 2 ** 53]
+  vals = [0.0, 1.0, -1.5, 1e-7, 1e300, float('inf'), float('-inf'), 3, -7, 2 ** 53, -1, -1.0, 0]
   for i, n in enumerate(names()):
     dps.append((n, float(1000 + i), vals[i % len(vals)]))
   return dps
